@@ -45,7 +45,8 @@ PROPS = {
     'C07': {'mc': _mc({'module': 'MC_Frames', 'cfg': 'MC_Frames', 'tier': 'both'}, {'module': 'MC_Stream', 'cfg': 'MC_Stream_3', 'tier': 'thorough'}),
             'rule': 'one CutSet event per valid frame: every strict prefix (strategic cuts for frames > 700 bytes) decoded; '
                     'non-trivial = frame longer than 8 bytes'},
-    'C13': {'mc': _mc({'module': 'MC_Catalog', 'cfg': 'MC_Catalog', 'tier': 'both'}),
+    'C13': {'mc': _mc({'module': 'MC_Catalog', 'cfg': 'MC_Catalog', 'tier': 'both'},
+                      {'module': 'MC_Valid', 'cfg': 'MC_Valid', 'tier': 'both', 'actions': ['Construct', 'SetAttr', 'Receive', 'DoMarshal']}),
             'rule': 'Construct / SetThenMarshal events around every constraint of every constrained argument, CharBlock events '
                     '(4096 code points each) over all of Unicode, crafted frames with refused values decoded'},
     'C19': {'mc': _mc({'module': 'MC_Catalog', 'cfg': 'MC_Catalog', 'tier': 'both'}),
